@@ -26,6 +26,9 @@ type C02Case struct {
 	// Verdict: "" (accept/reject as Reject says) | "unexpected-eof": the backend returns io.ErrUnexpectedEOF (wrapped), an
 	// error value that ALSO means "the connection ended" elsewhere - here the connection is alive
 	Verdict string `json:"verdict,omitempty"`
+	// Slow: ReadTimeout 30 min, WriteTimeout 10 s, and the peer pauses 40 virtual seconds before every segment: longer than
+	// the write timeout, far shorter than the read timeout - the transfer is slow, nothing times out
+	Slow bool `json:"slow,omitempty"`
 }
 
 const c02Follow = "MAIL FROM:<okmark1@x>\r\nRCPT TO:<okmark2@x>\r\nNOOP\r\n"
@@ -94,6 +97,9 @@ func evalC02(c C02Case) *h.Finding {
 	cfg, be := modeConfig(c.Mode)
 	cfg.MaxMessageBytes = c.Limit
 	cfg.MaxLineLength = c.LineMax
+	if c.Slow {
+		cfg.ReadTO, cfg.WriteTO, cfg.PeerPause = 30*time.Minute, 10*time.Second, true
+	}
 	var verdict error
 	if c.Reject {
 		verdict = h.RejErr("message")
@@ -242,7 +248,7 @@ func C02(tier string) int {
 	if tier == "thorough" {
 		maxTok = 4
 	}
-	run.Rule = fmt.Sprintf("messages = all sequences of <=%d tokens from %q, terminated by CRLF.CRLF and followed by pipelined marker commands; x backend {reads all, 0, 1, n/2 octets} x {accept, reject} x size limit {none, n/2, n, n+10} x {SMTP, LMTP plain backend, LMTP per-recipient backend} x segmentation {one segment, one octet per segment, every 2-split from 4 octets before to 6 after the end marker; one segment also with MaxLineLength 8192, i.e. above the read-buffer size}. Distinct by construction; non-trivial = message contains a bait command or a terminator look-alike. Plus lines of 4094..12288 octets (multiples of the 4096-octet buffer +-1) with a backend that returns early, the backend verdict io.ErrUnexpectedEOF on a live connection, and messages with a line longer than MaxLineLength at 4 positions (refused and closed, or the message still ends at its end marker). Oracle: no bait address reaches the backend; replies and backend calls after the final DATA reply equal those the lines after the first true end marker (ref.Unstuff) produce on a connection that just finished a trivial transaction (differential).", maxTok, c02Tokens)
+	run.Rule = fmt.Sprintf("messages = all sequences of <=%d tokens from %q, terminated by CRLF.CRLF and followed by pipelined marker commands; x backend {reads all, 0, 1, n/2 octets} x {accept, reject} x size limit {none, n/2, n, n+10} x {SMTP, LMTP plain backend, LMTP per-recipient backend} x segmentation {one segment, one octet per segment, every 2-split from 4 octets before to 6 after the end marker; one segment also with MaxLineLength 8192, i.e. above the read-buffer size; every 2-split also from a SLOW peer: 40 virtual seconds of silence in the middle, WriteTimeout 10 s, ReadTimeout 30 min}. Distinct by construction; non-trivial = message contains a bait command or a terminator look-alike. Plus lines of 4090..12288 octets (around the multiples of the 4096-octet buffer), in the middle of the message and as its last line in front of the end marker, with a backend that returns early (after 0, 4, 10 octets), the backend verdict io.ErrUnexpectedEOF on a live connection, and messages with a line longer than MaxLineLength at 4 positions (refused and closed, or the message still ends at its end marker). Oracle: no bait address reaches the backend; replies and backend calls after the final DATA reply equal those the lines after the first true end marker (ref.Unstuff) produce on a connection that just finished a trivial transaction (differential).", maxTok, c02Tokens)
 	run.Assumptions = []string{"reply codes of the DATA command itself are judged by C04/C06, not here", "the reference run (same server code, trivial message) defines what the follow-up commands do; only its agreement with the run under test is judged"}
 	var msgs [][]int
 	var rec func(cur []int)
@@ -288,11 +294,16 @@ func C02(tier string) int {
 						if li > 0 && lim == 0 {
 							continue // would mean "no limit" again
 						}
-						for ci, cuts := range append(cutsList, nil) {
+						all := append(cutsList, nil)
+						if li == 0 {
+							all = append(all, cutsList[2:]...) // every 2-split once more, from a slow peer
+						}
+						for ci, cuts := range all {
 							c := C02Case{Mode: mode, Msg: msg, ReadMax: rm, Reject: rej, Limit: lim, Cuts: cuts}
 							if ci == len(cutsList) {
 								c.LineMax = 8192 // everything in one segment once more, with a line limit above the buffer size
 							}
+							c.Slow = ci > len(cutsList)
 							f := evalC02(c)
 							run.Eval(nontrivial)
 							if f != nil {
@@ -316,16 +327,19 @@ func C02(tier string) int {
 	// lines whose length is a multiple of the read-buffer size (4096), a backend that returns early (the server skips the
 	// rest itself), a line limit above all that; and the backend verdict io.ErrUnexpectedEOF
 	for _, mode := range []string{"smtp", "lmtp", "lmtp-rcpt"} {
-		for _, n := range []int{4094, 4095, 4096, 4097, 8191, 8192, 8193, 12288} {
-			for _, rm := range []int{0, 10, -1} {
-				msg := []byte("first\r\n" + strings.Repeat("x", n) + "\r\nMAIL FROM:<bait@x>\r\nlast")
-				c := C02Case{Mode: mode, Msg: msg, ReadMax: rm, Reject: rm >= 0, LineMax: 20000}
-				f := evalC02(c)
-				run.Eval(true)
-				if f != nil {
-					c.Show = fmt.Sprintf("a line of %d octets", n)
-					cc := c
-					run.Violate("c02", cc, f, func() *h.Finding { return evalC02(cc) })
+		for _, n := range []int{4090, 4091, 4092, 4093, 4094, 4095, 4096, 4097, 4098, 8190, 8191, 8192, 8193, 8194, 12288} {
+			for _, rm := range []int{0, 4, 10, -1} {
+				// the long line in the middle of the message, and as its LAST line (the end marker right behind it)
+				for _, tail := range []string{"\r\nMAIL FROM:<bait@x>\r\nlast", "", "\r\n.", "\r\n..\r\nMAIL FROM:<bait@x>"} {
+					msg := []byte("first\r\n" + strings.Repeat("x", n) + tail)
+					c := C02Case{Mode: mode, Msg: msg, ReadMax: rm, Reject: rm >= 0, LineMax: 20000}
+					f := evalC02(c)
+					run.Eval(true)
+					if f != nil {
+						c.Show = fmt.Sprintf("a line of %d octets followed by %q", n, tail)
+						cc := c
+						run.Violate("c02", cc, f, func() *h.Finding { return evalC02(cc) })
+					}
 				}
 			}
 		}
